@@ -80,6 +80,7 @@ def step (_ : Unit) (line : String) : Unit × String :=
       let v :=
         if !(impl.startsWith "ret=") then "ok"
         else if f "kill" == "lt" && kill == "ge" then "bad:C06:C06:sigkill-before-timeout"
+        else if f "kill" == "late" then "bad:C06:C06:sigkill-long-after-timeout (still alive 2.5 s after shutdown.timeout_seconds had elapsed)"
         else if f "alive" != joinS alive && cmd == "-" && !p.parentOnly && p.timeout != 0 && (gEnd.all (!·.alive)) then
           "bad:C06:C06:survivor-after-timeout " ++ f "alive"
         else if cmd == "-" && !p.parentOnly && f "alive" != "-" && f "ret" == "ok" then
